@@ -2,7 +2,8 @@
 C12 — executable model of the bivariate Granger-causality spectra
 (`nitime/algorithms/autoregressive.py`: transfer_function_xy, spectral_matrix_xy,
 coherence_from_spectral, interdependence_xy, granger_causality_xy; `nitime/analysis/granger.py`:
-GrangerAnalyzer._dict2arr and the default `ij` list).  Core Lean only.
+GrangerAnalyzer._dict2arr and the default `ij` list; the analyzer as an object re-targeted with
+`set_input`: `Model/GrangerObj.lean`, op `anaseq`).  Core Lean only.
 
 Everything numerical is written once over `Scalar K`, per frequency bin (the numpy code is the
 same expression applied element-wise along the frequency axis); the driver runs `K = CF`,
@@ -13,6 +14,7 @@ logarithm is applied by the instance (`Float.log` in the driver, `Real.log` in t
 `Σ_j b_j z^j` at `z = exp(-1j·π k/n)` (`polyEval`, shared with C10).
 -/
 import Nitime.Model.ARBase
+import Nitime.Model.GrangerObj
 import Nitime.Generated.FreqResponse
 
 namespace Nitime.C12
@@ -160,6 +162,60 @@ def parsePair? (s : String) : Option PairModel :=
 
 def nanF : Float := 0.0 / 0.0
 
+/-- the three arrays `causality_xy`, `causality_yx`, `simultaneous_causality` (flattened `np × np × bins`)
+of an analyzer whose pairs `ij` (in this order) have the fitted models `ps` -/
+def anaArrays (np nf : Nat) (ps : List PairModel) : List Float × List Float × List Float :=
+  let ij := ps.map fun q => (q.i, q.j)
+  let res (q : Nat × Nat) : List (GC CF) :=
+    match ps.find? (fun m => m.i = q.1 ∧ m.j = q.2) with
+    | some m => (gridZ nf).map fun z => grangerAt (transferAt (coefsOf m.p m.a) z) (covOf m.cov)
+    | none => []
+  let arr := dict2arr ij res
+  let flat (sel : GC CF → Float) : List Float :=
+    (List.range np).flatMap fun i => (List.range np).flatMap fun j =>
+      match arr (i, j) with
+      | some g => g.map sel
+      | none => List.replicate (nBins nf) nanF
+  (flat fun g => logRe g.rX2Y, flat fun g => logRe g.rY2X, flat fun g => logRe g.rXY)
+
+/-! ### the analyzer re-targeted with `set_input` (object model of `Model/GrangerObj.lean`) -/
+
+/-- what the analyzer points at: channel count, sampling rate, and — fitting is C11's business — the
+fitted model of every pair of its `ij` list ON THIS INPUT -/
+structure AIn where
+  nproc : Nat
+  fs : Float
+  pairs : List PairModel
+
+inductive ARead where
+  | xy | yx | sim | freqs | model
+
+/-- `S|<nproc>|<Fs>|<pair>;<pair>;…` = constructor / `set_input`; `Rxy Ryx Rsim Rf Rm` = reads -/
+def parseAOp? (s : String) : Option (GrangerObj.Op AIn × ARead) :=
+  if s = "Rxy" then some (.readGC, .xy) else
+  if s = "Ryx" then some (.readGC, .yx) else
+  if s = "Rsim" then some (.readGC, .sim) else
+  if s = "Rf" then some (.readFreqs, .freqs) else
+  if s = "Rm" then some (.readModel, .model) else
+  match s.splitOn "|" with
+  | ["S", np, fs, prs] => do
+    let np ← np.toNat?
+    let fs ← parseFloat? fs
+    let ps ← (if prs = "-" then [] else prs.splitOn ";").mapM parsePair?
+    pure (.setInput ⟨np, fs, ps⟩, .model)
+  | _ => none
+
+def analyzerAxis (nf : Nat) (d : AIn) : List Float :=
+  (List.range (nf / 2 + 1)).map fun k => (analyzerFreq (CF.ofFloat d.fs) (nf / 2 + 1) k).re
+
+def showAOut : GrangerObj.Out (List PairModel) (List Float × List Float × List Float) (List Float) × ARead → List String
+  | (.gc (some g), .xy) => [showFloatList g.1]
+  | (.gc (some g), .yx) => [showFloatList g.2.1]
+  | (.gc (some g), .sim) => [showFloatList g.2.2]
+  | (.gc none, _) => ["E"]
+  | (.freqs a, _) => [showFloatList a]
+  | _ => []
+
 def handle (args : List String) : String :=
   match args with
   | ["tf", nf, p, a] => match nf.toNat?, p.toNat?, parseFloatList? a with
@@ -192,20 +248,15 @@ def handle (args : List String) : String :=
     | _, _, _, _ => "bad-op"
   | "ana" :: np :: nf :: pairs => match np.toNat?, nf.toNat?, pairs.mapM parsePair? with
     | some np, some nf, some ps =>
-      let ij := ps.map fun q => (q.i, q.j)
-      let res (q : Nat × Nat) : List (GC CF) :=
-        match ps.find? (fun m => m.i = q.1 ∧ m.j = q.2) with
-        | some m => (gridZ nf).map fun z => grangerAt (transferAt (coefsOf m.p m.a) z) (covOf m.cov)
-        | none => []
-      let arr := dict2arr ij res
-      let flat (sel : GC CF → Float) : List Float :=
-        (List.range np).flatMap fun i => (List.range np).flatMap fun j =>
-          match arr (i, j) with
-          | some g => g.map sel
-          | none => List.replicate (nBins nf) nanF
-      "ok " ++ showFloatList (flat fun g => logRe g.rX2Y) ++ " " ++ showFloatList (flat fun g => logRe g.rY2X) ++ " " ++
-        showFloatList (flat fun g => logRe g.rXY)
+      let r := anaArrays np nf ps
+      "ok " ++ showFloatList r.1 ++ " " ++ showFloatList r.2.1 ++ " " ++ showFloatList r.2.2
     | _, _, _ => "bad-op"
+  | "anaseq" :: nf :: toks => match nf.toNat?, toks.mapM parseAOp? with
+    | some nf, some ((.setInput d, _) :: ops) =>
+      let outs := GrangerObj.run (fun d : AIn => some d.pairs) (fun d ps => anaArrays d.nproc nf ps) (analyzerAxis nf)
+        (ops.map (·.1)) (GrangerObj.construct d)
+      "ok " ++ " ".intercalate ((outs.zip (ops.map (·.2))).flatMap showAOut)
+    | _, _ => "bad-op"
   | ["afreq", fs, nf] => match parseFloat? fs, nf.toNat? with
     | some fs, some nf =>
       "ok " ++ showFloatList ((List.range (nf / 2 + 1)).map fun k => (analyzerFreq (CF.ofFloat fs) (nf / 2 + 1) k).re)
